@@ -2116,3 +2116,154 @@ def dnastring_order_lemmas(F, rep, rule="C14.4"):
     else:
         rep.holds(rule, "order/table", "cmp / partial_cmp / == of DnaString agree with the base sequences on %d structured operand pairs (symbolic common prefix of 0..64 bases; "
                   "equal, proper-prefix with constant continuations incl. all-A, first difference u < v with symbolic suffixes; both argument orders)" % n_ok)
+
+
+# ----------------------------------------------------------------------------------------------------------------------
+# k-mer iterators end to end (C13 / C05): construct the iterator with the container's own constructor and drive it through its own
+# `next` (and any other Iterator method the impl overrides) until it ends — independent of the iterator's private fields.
+def _onehot(lo, hi, shift):
+    """bits of (1 << base) << shift for the 2-bit base (lo, hi), as ANF terms in a u8"""
+    nl, nh = t_not(lo), t_not(hi)
+    four = [t_and(nl, nh), t_and(lo, nh), t_and(nl, hi), t_and(lo, hi)]
+    out = [ZERO] * 8
+    for i in range(4):
+        out[shift + i] = four[i]
+    return out
+
+
+class _ExtsHarness(CaseHarness):
+    """Exts::set / mk_left / mk_right with a symbolic base: the exact one-hot bits (the shift by a symbolic amount is not interpreted)"""
+
+    def on_call(self, it, fn, args, dest_ty, term, caller):
+        p = fn.get("path", "")
+        if p in ("Exts::mk_left", "Exts::mk_right") and len(args) == 1 and isinstance(args[0], Int) and not args[0].is_conc():
+            b = list(args[0].getbits())
+            if any(x is TOP for x in b[:2]) or any(x != ZERO for x in b[2:]):
+                return NotImplemented
+            return Adt("Exts", 0, [Int(8, False, bits=_onehot(b[0], b[1], 0 if p.endswith("left") else 4))])
+        if p == "Exts::set" and len(args) == 3 and isinstance(args[2], Int) and not args[2].is_conc():
+            from .absint import Ref as _R
+            e = it.read(args[0].cell, args[0].path) if isinstance(args[0], _R) else args[0]
+            d = args[1]
+            b = list(args[2].getbits())
+            if isinstance(e, Adt) and isinstance(d, Adt) and d.variant is not None and not any(x is TOP for x in b[:2]) and all(x == ZERO for x in b[2:]):
+                oh = _onehot(b[0], b[1], 0 if d.variant == 0 else 4)
+                old = list(e.fields[0].getbits())
+                return Adt("Exts", 0, [Int(8, False, bits=[bv.t_or(x, y) for x, y in zip(old, oh)])])
+        return NotImplemented
+
+
+def kmer_iter_e2e_lemmas(F, rep, rule="L-iter"):
+    try:
+        dt = DnaT(F)
+    except Unsupported as e:
+        rep.inconclusive(rule, "DnaString", "role discovery: %s" % e)
+        return
+    CONT = "dna_string::DnaString"
+    ktys = sorted({k.split("<KmerIter<'_, ")[1].split(", " + CONT)[0] for k in F.insts if k.startswith("<KmerIter<'_, ") and (", " + CONT + "> as ") in k})
+    if not ktys:
+        rep.inconclusive(rule, "instances", "no monomorphic instance of KmerIter over DnaString was exported")
+        return
+    for kty in ktys:
+        try:
+            kt = KType(F, kty)
+            kt.K = kmer_k(F, kt)
+        except Exception as e:
+            rep.inconclusive(rule, kty, "cannot set up %s: %s" % (kty, e))
+            continue
+        K, W = kt.K, kt.W
+
+        def lanes(first):
+            spec = [ZERO] * W
+            for j in range(K):
+                hi, lo = kt.lane_bits(j)
+                spec[hi], spec[lo] = var("s", 2 * (first + j) + 1), var("s", 2 * (first + j))
+            return spec
+        for iname, ctor in (("KmerIter", "iter_kmers"), ("KmerExtsIter", "iter_kmer_exts")):
+            pre = "<%s<'_, %s, %s> as std::iter::Iterator>::" % (iname, kty, CONT)
+            meths = sorted(k[len(pre):] for k in F.insts if k.startswith(pre))
+            ckey = "<%s as Vmer>::%s::<%s>" % (CONT, ctor, kty)
+            ext_vals = (None,) if iname == "KmerIter" else (0x00, 0x21, 0x63, 0xff)
+            for n in sorted({max(K - 1, 0), K, K + 1, K + 3}):
+                cnt = max(0, n - K + 1)
+                for ev in ext_vals:
+                    key = "%s/%s/len=%d%s" % (kty, ctor, n, "" if ev is None else "/exts=%02x" % ev)
+
+                    def mk_iter(n=n, ev=ev):
+                        args = [Ref(Cell(dt.sym("s", n), "seq"))]
+                        if ev is not None:
+                            args.append(Adt("Exts", 0, [Int(8, False, val=ev)]))
+                        r, _ = run_inst(F, ckey, args, _ExtsHarness())
+                        return Cell(r, "iter")
+
+                    def want_exts(i, n=n, ev=ev, cnt=cnt):
+                        left = [ONE if (ev >> b) & 1 else ZERO for b in range(4)] if i == 0 else _onehot(var("s", 2 * (i - 1)), var("s", 2 * (i - 1) + 1), 0)[:4]
+                        right = [ONE if (ev >> (4 + b)) & 1 else ZERO for b in range(4)] if i == cnt - 1 else _onehot(var("s", 2 * (i + K)), var("s", 2 * (i + K) + 1), 4)[4:]
+                        return left + right
+
+                    def check_item(item, i, key):
+                        """item i of the iteration: Some(k-mer of bases i..i+K [, its flanking extensions])"""
+                        if not (isinstance(item, Adt) and item.variant is not None):
+                            rep.inconclusive(rule, key, "next() returned %r" % (item,))
+                            return False
+                        if i >= cnt:
+                            rep.evaluations += 1
+                            if item.variant != 0:
+                                rep.violated(rule, key, "%s over a sequence of %d bases (K = %d) yields an item at step %d; it holds only %d k-mer(s)" % (ctor, n, K, i, cnt),
+                                             witness={"kind": "count", "len": n, "K": K})
+                                return False
+                            return True
+                        if item.variant != 1:
+                            rep.evaluations += 1
+                            rep.violated(rule, key, "%s over a sequence of %d bases (K = %d) ends after %d item(s); it holds %d k-mers" % (ctor, n, K, i, cnt),
+                                         witness={"kind": "count", "len": n, "K": K})
+                            return False
+                        v = item.fields[0]
+                        km = v.fields[0] if ev is not None else v
+                        if not expect_bits(rep, rule, key + "/item=%d" % i, kt.storage_of(km), lanes(i), "%s: item %d of %d is the k-mer of bases %d..%d" % (ctor, i, cnt, i, i + K)):
+                            return False
+                        if ev is not None:
+                            ex = v.fields[1]
+                            return expect_bits(rep, rule, key + "/item=%d/exts" % i, ex.fields[0] if isinstance(ex, Adt) else ex, want_exts(i),
+                                               "%s(exts %02x): the extensions of item %d are its flanking bases, the caller's boundary extensions only at the two ends" % (ctor, ev, i))
+                        return True
+
+                    def f_next(key=key, mk_iter=mk_iter, check_item=check_item):
+                        cell = mk_iter()
+                        for i in range(cnt + 2):
+                            item, _ = run_inst(F, pre + "next", [Ref(cell)], _ExtsHarness())
+                            if not check_item(item, i, key):
+                                return
+                        rep.holds(rule, key, "%s over %d bases yields exactly %d item(s), then ends and stays ended" % (ctor, n, cnt), nontrivial=False)
+                    guarded(rep, rule, key, ctor, f_next)
+
+                    for m in meths:
+                        if m == "next":
+                            continue
+                        if m == "nth":
+                            for j in range(0, cnt + 2):
+                                def f_nth(j=j, key=key, mk_iter=mk_iter, check_item=check_item):
+                                    cell = mk_iter()
+                                    item, _ = run_inst(F, pre + "nth", [Ref(cell), usize(j)], _ExtsHarness())
+                                    if not check_item(item, j, key + "/nth(%d)" % j):
+                                        return
+                                    nxt, _ = run_inst(F, pre + "next", [Ref(cell)], _ExtsHarness())
+                                    if check_item(nxt, j + 1, key + "/nth(%d)+next" % j):
+                                        rep.holds(rule, key + "/nth(%d)" % j, "nth(%d) = item %d (or the end), the iteration continues with item %d" % (j, j, j + 1), nontrivial=False)
+                                guarded(rep, rule, key + "/nth(%d)" % j, "nth", f_nth)
+                        elif m == "size_hint":
+                            def f_sh(key=key, mk_iter=mk_iter):
+                                cell = mk_iter()
+                                r, _ = run_inst(F, pre + "size_hint", [Ref(cell)], _ExtsHarness())
+                                rep.evaluations += 1
+                                lo_ = r.fields[0] if isinstance(r, Tup) else None
+                                hi_ = r.fields[1] if isinstance(r, Tup) else None
+                                ok = isinstance(lo_, Int) and lo_.is_conc() and lo_.val <= cnt and isinstance(hi_, Adt) and hi_.variant is not None and \
+                                    (hi_.variant == 0 or (isinstance(hi_.fields[0], Int) and hi_.fields[0].is_conc() and hi_.fields[0].val >= cnt))
+                                if ok:
+                                    rep.holds(rule, key + "/size_hint", "size_hint brackets the %d remaining items" % cnt, nontrivial=False)
+                                else:
+                                    rep.violated(rule, key + "/size_hint", "size_hint of a fresh iterator over %d k-mers is %r" % (cnt, r))
+                            guarded(rep, rule, key + "/size_hint", "size_hint", f_sh)
+                        else:
+                            rep.inconclusive(rule, key + "/" + m, "the iterator overrides Iterator::%s; no lemma relates it to next()" % m)
